@@ -1,7 +1,7 @@
 (* C17 property theorems (proofs in C04/Errors.v over the same transition system). *)
 From Coq Require Import List Bool Arith.
 Import ListNotations.
-From Miller Require Import C04.Model C04.Search C04.Progress C04.Errors C04.Termination.
+From Miller Require Import C04.Model C04.Search C04.Progress C04.Errors C04.Termination C17.Faults C17.Exit.
 
 (* A failure of the reader (open/parse error), of any verb (Transform error) or of the writer (Write error),
    at any position in the stream, is never lost: whenever main exits, it returns an error.  For every chain
@@ -45,3 +45,180 @@ Proof.
   - exists s. split; [reflexivity|]. vm_compute in E. inversion E; subst. split; reflexivity.
   - vm_compute in E. discriminate.
 Qed.
+
+(* ------------------------------------------------------------------ fault position is irrelevant (C17/Faults.v)
+   exit_code s = Some 1 / Some 0 : entrypoint.Main maps Stream's return value (main's ret) to the process status;
+   stderr_nonempty : exitOnError prints "mlr: <err>" exactly when that value is an error;
+   diag_pending : an error value is buffered on one of the two error channels, held by main, or held by the
+   failing stage at the control point just before its post. *)
+
+(* every chain length, number of batches, reachable state (= every schedule prefix and every position of the
+   fault: reader at any batch, verb i of n at any batch incl. the end-of-stream batch, writer at any batch) in
+   which some stage has failed: an error value is in flight, EVERY reachable final state exits 1 with a
+   diagnostic, and such a final state IS reachable *)
+Theorem C17_fault_anywhere_nonzero_exit :
+  forall (k : nat) (kinds : list bool) (s : state),
+    kinds <> [] -> reachable false (init k kinds) s -> cfailed (ch s) = true ->
+    diag_pending s = true
+    /\ (forall s', reachable false s s' -> is_final s' = true -> exit_code s' = Some 1 /\ stderr_nonempty s' = true)
+    /\ (exists s', reachable false s s' /\ is_final s' = true /\ exit_code s' = Some 1 /\ stderr_nonempty s' = true).
+Proof. exact fault_anywhere_nonzero_exit. Qed.
+Print Assumptions C17_fault_anywhere_nonzero_exit.
+
+Theorem C17_fault_anywhere_every_exit_nonzero :
+  forall (blocking : bool) (k : nat) (kinds : list bool) (s s' : state),
+    reachable blocking (init k kinds) s -> cfailed (ch s) = true ->
+    reachable blocking s s' -> is_final s' = true -> exit_code s' = Some 1 /\ stderr_nonempty s' = true.
+Proof. exact fault_anywhere_every_exit_nonzero. Qed.
+Print Assumptions C17_fault_anywhere_every_exit_nonzero.
+
+Theorem C17_fault_diagnostic_in_flight :
+  forall (blocking : bool) (k : nat) (kinds : list bool) (s : state),
+    reachable blocking (init k kinds) s -> cfailed (ch s) = true -> diag_pending s = true.
+Proof. exact fault_diagnostic_in_flight. Qed.
+Print Assumptions C17_fault_diagnostic_in_flight.
+
+(* reader fault at any batch j: the fault step is enabled at every batch still to be read, and from the state
+   holding the error every final state exits 1 *)
+Theorem C17_reader_fault_step_enabled :
+  forall (blocking : bool) (s : state) (j : nat),
+    rd s = RPoll (S j) ->
+    step blocking s (mkS (RErr j) (ierr s) (set_failed (ch s)) (wr s) (doneq s) (mn s)).
+Proof. exact reader_fault_step_enabled. Qed.
+Print Assumptions C17_reader_fault_step_enabled.
+
+Theorem C17_reader_fault_nonzero_exit :
+  forall (blocking : bool) (k : nat) (kinds : list bool) (s : state) (j : nat),
+    reachable blocking (init k kinds) s -> rd s = RErr j ->
+    cfailed (ch s) = true
+    /\ forall s', reachable blocking s s' -> is_final s' = true -> exit_code s' = Some 1 /\ stderr_nonempty s' = true.
+Proof. exact reader_fault_nonzero_exit. Qed.
+Print Assumptions C17_reader_fault_nonzero_exit.
+
+(* verb fault: stage i of the chain (any i, any chain length) is on its error path, for any batch *)
+Theorem C17_verb_fault_nonzero_exit :
+  forall (blocking : bool) (k : nat) (kinds : list bool) (s : state) (i : nat) (v : vstage),
+    reachable blocking (init k kinds) s -> nth_error (cvs (ch s)) i = Some v -> verr_pc v = true ->
+    cfailed (ch s) = true
+    /\ forall s', reachable blocking s s' -> is_final s' = true -> exit_code s' = Some 1 /\ stderr_nonempty s' = true.
+Proof. exact verb_fault_nonzero_exit. Qed.
+Print Assumptions C17_verb_fault_nonzero_exit.
+
+(* writer-detected data error (channel_writer.go: Write fails -> "mlr: ..." -> non-blocking post -> done):
+   exit 1 on every path, also when a verb's error was posted first and the writer's post is dropped *)
+Theorem C17_writer_fault_nonzero_exit :
+  forall (blocking : bool) (k : nat) (kinds : list bool) (s : state),
+    reachable blocking (init k kinds) s -> wr s = WErr ->
+    cfailed (ch s) = true
+    /\ forall s', reachable blocking s s' -> is_final s' = true -> exit_code s' = Some 1 /\ stderr_nonempty s' = true.
+Proof. exact writer_fault_nonzero_exit. Qed.
+Print Assumptions C17_writer_fault_nonzero_exit.
+
+Theorem C17_faulty_run_reaches_exit1 :
+  forall (k : nat) (kinds : list bool) (s : state),
+    kinds <> [] -> reachable false (init k kinds) s ->
+    (is_rerr (rd s) = true \/ wr s = WErr \/ existsb verr_pc (cvs (ch s)) = true) ->
+    exists s', reachable false s s' /\ is_final s' = true /\ exit_code s' = Some 1.
+Proof. exact faulty_run_reaches_exit1. Qed.
+Print Assumptions C17_faulty_run_reaches_exit1.
+
+(* non-vacuity witnesses (vm_compute over concrete schedules, proofs in C17/Faults.v) *)
+Theorem C17_verb_fault_mid_of_3_at_eos_witness :
+  exists s, reachable false (init 2 [false; false; false]) s
+    /\ rd s = RDone /\ nthpc s 0 = Some VDone /\ nthpc s 1 = Some VSendE /\ nthpc s 2 = Some (VWork false)
+    /\ is_final (run0 100 s) = true /\ exit_code (run0 100 s) = Some 1.
+Proof. exact verb_fault_mid_of_3_at_eos. Qed.
+Theorem C17_reader_fault_first_batch_witness :
+  exists s, reachable false (init 3 [false]) s /\ rd s = RErr 2
+    /\ is_final (run0 100 s) = true /\ exit_code (run0 100 s) = Some 1.
+Proof. exact reader_fault_first_batch. Qed.
+Theorem C17_writer_fault_batch_boundary_witness :
+  exists s, reachable false (init 2 [false; true]) s /\ wr s = WErr /\ cerr (ch s) = false
+    /\ is_final (run0 100 s) = true /\ exit_code (run0 100 s) = Some 1.
+Proof. exact writer_fault_batch_boundary. Qed.
+Theorem C17_writer_fault_after_verb_error_witness :
+  exists s, reachable false (init 1 [false; false]) s /\ wr s = WErr /\ cerr (ch s) = true
+    /\ is_final (run0 100 s) = true /\ exit_code (run0 100 s) = Some 1.
+Proof. exact writer_fault_after_verb_error. Qed.
+
+(* ------------------------------------------------------------------ process exit layer (C17/Exit.v)
+   xstate wraps the C04 state with: the final bufferedOutputStream.Flush() of stream.Stream (FPending/FOk/FFailed),
+   the process exit status (entrypoint: 1 iff Stream's return value is an error, after the flush error was folded
+   in; or os.Exit(1) taken directly by a verb inside Transform) and whether a diagnostic was written. *)
+
+(* exit status 0 => all input consumed, every verb forwarded end of stream, writer finished, nothing failed,
+   standard output flushed successfully, nothing written to stderr by the exit path *)
+Theorem C17_xexit0_complete :
+  forall (blocking : bool) (k : nat) (kinds : list bool) (x : xstate),
+    xreachable blocking (xinit k kinds) x -> xexit x = Some 0 ->
+    (rd (base x) = RDone /\ Forall (fun v => vp v = VDone) (cvs (ch (base x))) /\ wr (base x) = WDone
+     /\ cfailed (ch (base x)) = false)
+    /\ xfl x = FOk /\ xdiag x = false.
+Proof. exact xexit0_complete. Qed.
+Print Assumptions C17_xexit0_complete.
+
+Theorem C17_xexit_status_and_diagnostic :
+  forall (blocking : bool) (k : nat) (kinds : list bool) (x : xstate) (c : nat),
+    xreachable blocking (xinit k kinds) x -> xexit x = Some c -> (c = 0 /\ xdiag x = false) \/ (c = 1 /\ xdiag x = true).
+Proof. exact xexit_status_and_diagnostic. Qed.
+Print Assumptions C17_xexit_status_and_diagnostic.
+
+(* after a fault of any stage, every way of exiting (main's return, failed flush, os.Exit from a verb) has status 1 *)
+Theorem C17_xfault_exit_nonzero :
+  forall (blocking : bool) (k : nat) (kinds : list bool) (x : xstate) (c : nat),
+    xreachable blocking (xinit k kinds) x -> cfailed (ch (base x)) = true -> xexit x = Some c -> c = 1 /\ xdiag x = true.
+Proof. exact xfault_exit_nonzero. Qed.
+Print Assumptions C17_xfault_exit_nonzero.
+
+Theorem C17_xflush_failure_exit_nonzero :
+  forall (blocking : bool) (k : nat) (kinds : list bool) (x : xstate) (c : nat),
+    xreachable blocking (xinit k kinds) x -> xfl x = FFailed -> xexit x = Some c -> c = 1 /\ xdiag x = true.
+Proof. exact xflush_failure_exit_nonzero. Qed.
+Print Assumptions C17_xflush_failure_exit_nonzero.
+
+Theorem C17_xosexit_enabled :
+  forall (blocking : bool) (x : xstate),
+    xexit x = None -> existsb (fun v => is_work (vp v)) (cvs (ch (base x))) = true ->
+    xstep blocking x (mkX (base x) (xfl x) (Some 1) true).
+Proof. exact xosexit_enabled. Qed.
+Print Assumptions C17_xosexit_enabled.
+
+Theorem C17_xexit_absorbing :
+  forall (blocking : bool) (x : xstate) (c : nat), xexit x = Some c -> xsuccs blocking x = [].
+Proof. exact xexit_absorbing. Qed.
+Print Assumptions C17_xexit_absorbing.
+
+(* end-of-stream close of the redirected outputs (RootNode.ProcessEndOfStream as in /repo): no error returned =>
+   every handler of every manager flushed and closed; any failing close is reported (=> the verb takes its
+   error path VWork true -> VSendE, covered by C17_verb_fault_nonzero_exit) *)
+Theorem C17_process_eos_complete :
+  forall ms : list (list hstate),
+    never_closed ms = true -> snd (process_eos_repo ms) = false -> all_closed_ok (fst (process_eos_repo ms)) = true.
+Proof. exact process_eos_repo_complete. Qed.
+Print Assumptions C17_process_eos_complete.
+
+Theorem C17_process_eos_reports :
+  forall ms : list (list hstate),
+    never_closed ms = true ->
+    existsb (existsb (fun h => match h with HOpen true => true | _ => false end)) ms = true ->
+    snd (process_eos_repo ms) = true.
+Proof. exact process_eos_repo_reports. Qed.
+Print Assumptions C17_process_eos_reports.
+
+(* the keep-only-the-last-manager's-errors variant of that loop (the seeded change C17-1) is refuted *)
+Theorem C17_process_eos_keep_last_refuted :
+  exists ms, never_closed ms = true /\ snd (process_eos true ms) = false
+             /\ all_closed_ok (fst (process_eos true ms)) = false
+             /\ snd (process_eos false ms) = true.
+Proof. exact process_eos_keep_last_refuted. Qed.
+Print Assumptions C17_process_eos_keep_last_refuted.
+
+Theorem C17_xrun_clean_exit0_witness :
+  exists x, xreachable false (xinit 1 [false]) x /\ xsummary x = (MExit false, false, FOk, Some 0, false).
+Proof. exact xrun_clean_exit0. Qed.
+Theorem C17_xrun_flush_failure_exit1_witness :
+  exists x, xreachable false (xinit 1 [false]) x /\ xsummary x = (MExit false, false, FFailed, Some 1, true).
+Proof. exact xrun_flush_failure_exit1. Qed.
+Theorem C17_xrun_osexit_after_reader_fault_witness :
+  exists x, xreachable false (xinit 2 [false]) x /\ xsummary x = (MLoop false, true, FPending, Some 1, true).
+Proof. exact xrun_osexit_after_reader_fault. Qed.
